@@ -364,6 +364,90 @@ def run(ctx):
         lab = 'fsm.DIMSEDecoder.process[%s]' % mode
         ctx.add_exploration(lab, lambda p, mode=mode: process_case(p, mode), res, target='fsm.DIMSEDecoder.process')
 
+    # ------------------------------------------------------------------ DT-2 / AR-6: which decoder gets the PDU
+    # The clauses above are about one decoder serving one message with the negotiated contexts as its
+    # environment.  DT-2 / AR-6 are what makes that true: the P-DATA-TF goes to the decoder of the message
+    # under way, or -- for the first fragment of a message -- to a new decoder that works on the association's
+    # *current* accepted-contexts table (negotiation re-binds that table after the state machine was built),
+    # the configured file-storage set and the application's file callback; a completed message is handed to
+    # the user once and its decoder is dropped.  process() itself is a stub here (its contract is above).
+    def data_action_case(p, name, first):
+        from . import c12, c04, nego
+        label = 'fsm.StateMachine.%s[%s]' % (name, 'first fragment of a message' if first else 'message under way')
+
+        def ob(cl, f):
+            if isinstance(f, bool):
+                f = z3.BoolVal(f)
+            p.oblige('%s#%s' % (label, cl), f, kind='ensures', assume_after=False)
+        provider, sock = c12.build_provider(it)
+        sm = provider.fields['state_machine']
+        States = fsm.attrs['States']
+        sm.fields['current_state'] = States.attrs['STA_6' if name == 'dt_2' else 'STA_7']
+        # negotiation: the association binds the accepted contexts through the provider's property
+        table = DictVal()
+        table.base = lambda it2, key: (_ for _ in ()).throw(Unsupported('the table is not to be read here'))
+        it.setattr(provider, 'accepted_contexts', table)
+        under_way = None
+        if not first:
+            under_way = it.instantiate(Dec, [table, sm.fields['store_in_file'], sm.fields['get_file_cb']], {})
+            sm.fields['dimse_decoder'] = under_way
+        prim = c04.make_prim(it, 'P-DATA-TF')
+        provider.fields['primitive'] = prim
+        seen = []
+        msg, pcid = Opaque('completed message'), p.fresh_int('pc_id')
+
+        def fake_process(it2, a, kw):
+            seen.append((a[0], a[1]))
+            how = it2.p.choose([True, True, True], 'decoder outcome')
+            if how == 0:
+                it2.raise_exc('ValueError', 'fragment cannot be reassembled')
+            if how == 1:
+                a[0].fields['receiving'] = False
+                a[0].fields['msg'] = msg
+                a[0].fields['pc_id'] = pcid
+            p.ghost['how'] = how
+        real = Dec.attrs['process']
+        Dec.attrs['process'] = nego.method(fake_process)
+        del p.trace[:]
+        try:
+            it.call(it.getattr(sm, name), [], {})
+        except Raised as r:
+            ob('noexc', False)
+            p.outcome = 'normal'
+            return
+        finally:
+            Dec.attrs['process'] = real
+        ob('pdu-goes-to-exactly-one-decoder', len(seen) == 1 and seen[0][1] is prim)
+        if len(seen) == 1:
+            d = seen[0][0]
+            if under_way is not None:
+                ob('fragment-goes-to-the-decoder-of-the-message-under-way', d is under_way)
+            ob('decoder-works-on-the-negotiated-contexts', isinstance(d, Obj) and d.fields.get('accepted_contexts') is table)
+            ob('decoder-has-the-file-storage-configuration', isinstance(d, Obj) and
+               d.fields.get('store_in_file') is sm.fields['store_in_file'] and
+               d.fields.get('get_file_cb') is sm.fields['get_file_cb'])
+            puts = [e for e in p.trace if e[0] == 'put' and e[1] == 'to_service_user']
+            how = p.ghost.get('how')
+            if how == 1:
+                ob('completed-message-handed-over-once', len(puts) == 1 and isinstance(puts[0][2], tuple) and
+                   len(puts[0][2]) == 2 and puts[0][2][0] is msg and puts[0][2][1] is pcid)
+                ob('decoder-dropped-after-completion', sm.fields['dimse_decoder'] is None)
+            elif how == 2:
+                ob('nothing-handed-over-before-completion', not puts)
+                ob('decoder-kept-while-receiving', sm.fields['dimse_decoder'] is d)
+            else:
+                # (the abort of the association, AA-8, tells the user: that indication is C04 / C12's clause)
+                ob('failed-decoder-dropped', sm.fields['dimse_decoder'] is None and
+                   not any(isinstance(e[2], tuple) for e in puts))
+        p.outcome = 'normal'
+    for name in ('dt_2', 'ar_6'):
+        fv, _ = verify.lookup_function(it, 'fsm.StateMachine.' + name)
+        ctx.extra.setdefault('functions', []).append(verify.function_info(it, fv))
+        for first in (True, False):
+            lab = 'fsm.StateMachine.%s[%s]' % (name, 'first fragment of a message' if first else 'message under way')
+            ctx.add_exploration(lab, lambda p, name=name, first=first: data_action_case(p, name, first), res,
+                                target='fsm.StateMachine.' + name)
+
     # ------------------------------------------------------------------ get_file / write_meta
     def get_file_case(p):
         label = 'applicationentity.AEBase.get_file'
@@ -433,7 +517,8 @@ def run(ctx):
         'trusted); the command field is one of the 23 PS3.7 codes',
         'file storage: get_file_cb returns an open file with arbitrary content already in it and a start offset '
         'inside that content; pydicom write_file_meta_info is external (its arguments are checked, not its output)',
-        'a decoder object serves one message (DT-2 / AR-6 create a new one after completion)',
+        'a decoder object serves one message and works on the association\'s current accepted-contexts table: '
+        'obligations on DT-2 / AR-6 (process() stubbed there: raises / completes / goes on receiving)',
         'the whole-stream statement follows from the per-fragment invariant by induction over the fragments '
         '(standard schema, not machine-checked)',
     ]
